@@ -1,4 +1,5 @@
 import UtilModel.Lemmas.Roman
+import UtilModel.Lemmas.CodeTies
 /-!
 # C10 — Roman parser recognises exactly the documented numerals with the right value
 
@@ -229,5 +230,11 @@ example : Roman.parse 3 false [73,73,73,73] = .err .tooLong := by decide
 example : Roman.valid 128 false [120,76,105,73] = .ok () := by decide                   -- xLiI
 example : Numeral [109,99,109,120,99,105,118] 1 [67,77] [88,67] [73,86] := by unfold Numeral; decide
 example : value 1 [67,77] [88,67] [73,86] = 1994 := by decide
+
+/-- **tie to the source**: `parseGroup` as translated from `roman/parse.go` on this run never needs an
+out-of-range byte and computes the model's value for every input, unit and pair of symbols -/
+theorem parseGroup_code_tie (input : Bytes) (unit d5 d10 : Nat) :
+    Roman.parseGroup input unit d5 d10 = .ok (Gen.roman_parseGroup input unit d5 d10) :=
+  CodeTies.parseGroup_tie input unit d5 d10
 
 end U.Props.C10
